@@ -137,6 +137,11 @@ pub fn menu(s: &Schema, ty: &Type, cfg: &MenuCfg, is_item: bool) -> Vec<Ans> {
                     m.push(Ans::Bool(true));
                     m.push(Ans::Bool(false));
                 }
+                "Even" => {
+                    m.push(Ans::Int(2));
+                    // rejected by the scalar's validator: a completion error is expected
+                    m.push(Ans::Int(3));
+                }
                 _ => {
                     m.push(Ans::Str("x".into()));
                     if cfg.rich {
@@ -165,8 +170,14 @@ pub fn menu(s: &Schema, ty: &Type, cfg: &MenuCfg, is_item: bool) -> Vec<Ans> {
     if cfg.errors && !is_item {
         m.push(Ans::Err);
     }
-    if cfg.wrong_kind {
+    // a dynamic object value is opaque user data: there is no "kind" to get wrong
+    let opaque_object = matches!(inner, Type::Named(n) if s.is_object(n));
+    if cfg.wrong_kind && !opaque_object {
         m.push(Ans::WrongKind);
+    }
+    // (dynamic) a resolver yielding nothing / an explicit null for a non-null type
+    if cfg.wrong_kind && !nullable {
+        m.push(Ans::Null);
     }
     debug_assert!(m[0] == TableWorld::default_for(s, ty));
     m
@@ -202,7 +213,8 @@ impl<'a, 'c> World for ChooserWorld<'a, 'c> {
         }
         let k = match self.fault_class {
             Some(fc) if m.len() > 1 => {
-                let classes: Vec<Class> = m.iter().map(|a| if matches!(a, Ans::Err | Ans::WrongKind) { fc } else { self.class }).collect();
+                let nn = ty.is_non_null();
+                let classes: Vec<Class> = m.iter().map(|a| if matches!(a, Ans::Err | Ans::WrongKind) || (nn && *a == Ans::Null) { fc } else { self.class }).collect();
                 self.ch.pick_costed("world", &classes)
             }
             _ => self.ch.pick(self.class, "world", m.len()),
